@@ -230,9 +230,15 @@ func fnFor(w *world.World, name string) vmcommon.BuiltinFunction {
 // Inv (sharing only the codec), acntSnd = nil, CallerAddr = sender, RecipientAddr = destination.
 func deliver(s *Scn, m message, refund bool) {
 	cfg := world.Config{MetaFieldLen: 1, Split1: !verif.Thorough()}
-	if len(carriedCount(m)) > 1 && !verif.Thorough() {
-		// two carried tokens: freeze/pause variety of the destination is explored for one token (quick tier)
-		cfg.NoPauseGen, cfg.NoFrozenGen = true, true
+	if len(carriedCount(m)) > 1 {
+		if !verif.Thorough() {
+			// two carried tokens: freeze/pause variety of the destination is explored for one token (quick tier)
+			cfg.NoPauseGen, cfg.NoFrozenGen = true, true
+		} else {
+			// thorough: freeze and pause variety for both tokens, pause flags absent or "paused",
+			// single-byte nonce split (the multi-byte splits are explored with one token)
+			cfg.Split1, cfg.PauseBinary = true, true
+		}
 	}
 	w2 := world.NewShared(cfg, s.W.Codec)
 	var dst *world.Account
@@ -381,6 +387,7 @@ func C01_MultiTransferSend2() {
 	o := sendOpt
 	o.MultiK = 2
 	o.NoCall = true
+	o.Medium = true // two items: the same state pins in both tiers (multi-byte nonce splits are explored with one item)
 	sendCheck(scnMultiTransfer(o))
 }
 
